@@ -118,6 +118,15 @@ func H_C17_Calls() {
 	}
 	// the reference map was only changed by accepted calls: every observation point must agree with it
 	h.checkReads("calls/reads-directly")
+	// and the two flavours of Get agree on every key of the map
+	for _, r := range h.ref {
+		sv, serr := h.db.Get(string(r.key))
+		bv, berr := h.db.GetBytes(r.key)
+		vrt.Assert((serr == nil) == (berr == nil), "calls/get-flavours-agree-on-presence")
+		if serr == nil && berr == nil {
+			vrt.Assert(vrt.EqBytes([]byte(sv), bv), "calls/get-flavours-agree-on-the-value")
+		}
+	}
 	{
 		// kill right after the call, recover, look again (natively: a copy of the directory as it is now -
 		// every completed system call persists in the kill model)
